@@ -72,14 +72,14 @@ def realize(desc, d: Path):
     import hashlib
     import json
 
-    key = hashlib.md5(json.dumps([imax, jmax, desc["files"]]).encode()).hexdigest()[:16]
+    key = hashlib.md5(json.dumps([imax, jmax, desc["files"], desc.get("tunit")]).encode()).hexdigest()[:16]
     fdir = d.parent / "forcing_cache" / key
     if not fdir.exists():
         fdir.mkdir(parents=True)
         for k, times in enumerate(desc["files"]):
             # every file has its own time reference (as files produced by different model runs have)
             rf.write_roms(fdir / f"ocean_{k:03d}.nc", imax=imax, jmax=jmax, N=2, times=times, u=0.0, v=0.0,
-                          time_ref_shift=REF_SHIFTS[k % len(REF_SHIFTS)], time_unit=["s", "h", "d"][(k + len(times)) % 3])
+                          time_ref_shift=REF_SHIFTS[k % len(REF_SHIFTS)], time_unit="s" if desc.get("tunit") == "s" else ["s", "h", "d"][(k + len(times)) % 3])
     if desc["forcing_single_name"] and len(desc["files"]) == 1:
         fpattern = str(fdir / "ocean_000.nc")
     else:
@@ -587,6 +587,35 @@ def f_duplicate(d, rng):
         f.insert(i, f[i])
 
 
+def _one_long_regular_file(d):
+    """all frames in one file of at least six regularly spaced frames, times stated in seconds"""
+    frames = sorted(t for f in d["files"] for t in f)
+    sp = frames[1] - frames[0]
+    while len(frames) < 6:
+        frames.append(frames[-1] + sp)
+    d["files"] = [frames]
+    d["tunit"] = "s"
+    return frames
+
+
+def f_swap_interior(d, rng):
+    """two frames swapped deep inside a long regular file: first, second and last time stamps are untouched"""
+    fr = _one_long_regular_file(d)
+    i = rng.randrange(2, len(fr) - 2)
+    fr[i], fr[i + 1] = fr[i + 1], fr[i]
+    if i + 1 == len(fr) - 1:
+        return False
+
+
+def f_dup_interior(d, rng):
+    """a frame repeated in place of its successor deep inside a long regular file"""
+    fr = _one_long_regular_file(d)
+    i = rng.randrange(2, len(fr) - 2)
+    fr[i + 1] = fr[i]
+    if i + 1 == len(fr) - 1:
+        return False
+
+
 def f_no_start(d, rng):
     d["start"] = None
 
@@ -758,7 +787,7 @@ def mk_sub(kind):
 
 INJECTORS = [
     f_forcing_late, f_forcing_early_end, f_forcing_first_inside, f_forcing_last_inside, f_forcing_last_at_step_end,
-    v_forcing_tight, f_swap_inside, f_swap_boundary, f_duplicate,
+    v_forcing_tight, f_swap_inside, f_swap_boundary, f_duplicate, f_swap_interior, f_dup_interior,
     f_no_start, f_no_stop, f_no_dt, f_dt_zero, f_flip, f_start_eq_stop,
     f_rel_before, f_rel_after, f_rel_at_stop, v_rel_at_start, v_rel_last_step, v_rel_cont_before,
     f_rel_nopos, f_rel_rowgap, f_rel_missing, f_rel_empty_name, f_rel_nokey,
